@@ -45,6 +45,17 @@ def run_tests(items, timeout=300, scratch=None):
         env['RUSTUP_TOOLCHAIN'] = 'stable-x86_64-unknown-linux-gnu'
         env['RUST_BACKTRACE'] = '0'
         for crate, its in by_crate.items():
+            # build first, without the per-test time budget (a cold build of harper-ls takes minutes)
+            targets = []
+            for it in its:
+                tg = it.get('target', ['--lib'])
+                if tg not in targets:
+                    targets.append(tg)
+            for tg in targets:
+                try:
+                    subprocess.run(['cargo', 'test', '--offline', '-q', '-p', crate] + tg + ['--no-run'], cwd=scratch, env=env, capture_output=True, text=True, timeout=3600)
+                except subprocess.TimeoutExpired:
+                    pass
             for it in its:
                 cmd = ['cargo', 'test', '--offline', '-q', '-p', crate] + it.get('target', ['--lib']) + [it['test'], '--', '--nocapture', '--test-threads=1']
                 t0 = time.time()
